@@ -699,16 +699,19 @@ def r18_12(ctx):
                             "return for integer / Fraction control points of curved segments too", floor=2)
     def newton_updates(node):
         """statements  v = u - a / b  /  u -= a / b  /  return u - a / b  under `node`"""
+        def is_quotient(e):
+            return isinstance(e, ast.BinOp) and isinstance(e.op, ast.Div) and not isinstance(e.right, ast.Constant)
+        # names bound to a quotient (`step = f / df`)
+        steps = {t.id for st in ast.walk(node) if isinstance(st, ast.Assign) and is_quotient(st.value)
+                 for t in st.targets if isinstance(t, ast.Name)}
         found = []
-        for st in ast.walk(node):
-            val = None
-            if isinstance(st, (ast.Assign, ast.Return)) and isinstance(st.value, ast.BinOp) and isinstance(st.value.op, ast.Sub):
-                val = st.value.right
-            elif isinstance(st, ast.AugAssign) and isinstance(st.op, ast.Sub):
-                val = st.value
-            if val is not None and isinstance(val, ast.BinOp) and isinstance(val.op, ast.Div) \
-                    and not isinstance(val.right, ast.Constant):
-                found.append(st)
+        for e in ast.walk(node):
+            if isinstance(e, ast.BinOp) and isinstance(e.op, ast.Sub) and (
+                    is_quotient(e.right) or (isinstance(e.right, ast.Name) and e.right.id in steps)):
+                found.append(e)
+            elif isinstance(e, ast.AugAssign) and isinstance(e.op, ast.Sub) and (
+                    is_quotient(e.value) or (isinstance(e.value, ast.Name) and e.value.id in steps)):
+                found.append(e)
         return found
 
     def roundings(node):
